@@ -315,7 +315,11 @@ extern int mpt_axis_get(const MPT_STRUCT(axis) *ax, MPT_STRUCT(property) *pr)
 		for (pos = 0; pos < (int) MPT_arrsize(elem); pos++) {
 			elem_name[pos] = elem[pos].name;
 		}
-		if ((pos = mpt_property_match(pr->name, 3, elem_name, pos)) < 0) {
+		/* setter aliases of "tpos" share the matched characters with "title" */
+		if (!strcasecmp(pr->name, "titlepos") || !strcasecmp(pr->name, "title position")) {
+			pos = 9;
+		}
+		else if ((pos = mpt_property_match(pr->name, 3, elem_name, pos)) < 0) {
 			return MPT_ERROR(BadArgument);
 		}
 	}
